@@ -5,6 +5,7 @@ import (
 	"go/constant"
 	"go/token"
 	"go/types"
+	"os"
 	"sort"
 	"strings"
 
@@ -221,6 +222,9 @@ func (f *frame) havocTo(from *hstate, names map[string]bool) {
 	f.st = vc.havoc(from, names)
 	if names["*"] {
 		vc.didHavocAll = true
+		if os.Getenv("GVC_DEBUG") != "" {
+			fmt.Fprintf(os.Stderr, "havoc-all in %s at block %v\n", funcDisplay(f.fn), f.cur)
+		}
 	}
 	if names["*"] || names["alloc"] {
 		a0 := vc.lookup(from, "alloc", allocSort)
